@@ -381,6 +381,27 @@ def slist_method(interp, lst: SList, name, args, kwargs):
         return lst.copy()
     if name == "index":
         return interp.ctx.slist_index(interp, lst, args[0])
+    if name == "pop":
+        # list.pop(k) / pop(): a negative k counts from the end, out of range raises IndexError; the elements after k move down
+        from .interp import PyRaise
+        n = lst.length
+        if args:
+            k0 = args[0].t if isinstance(args[0], SInt) else (z3.IntVal(args[0]) if isinstance(args[0], int) and not isinstance(args[0], bool) else None)
+            if k0 is None:
+                raise Unsupported("list.pop with a non-integer index")
+        else:
+            k0 = n - 1
+        if interp.branch(k0 < 0):
+            k = z3.simplify(k0 + n)
+        else:
+            k = k0
+        if not interp.branch(z3.And(k >= 0, k < n)):
+            raise PyRaise(IndexError("pop index out of range"))
+        val = slist_get(interp, lst, k, check=False)
+        j = z3.Int("j_pop")
+        lst.arrays = tuple(z3.Lambda([j], z3.If(j < k, z3.Select(a, j), z3.Select(a, j + 1))) for a in lst.arrays)
+        lst.length = z3.simplify(n - 1)
+        return val
     raise Unsupported(f"list.{name} on symbolic list")
 
 
